@@ -26,7 +26,20 @@ def run_case(case):
     if case.get("obs") or case.get("build") in gen.DERIVED_BUILDS:
         res.label("receiver_with_history")
     base = cells_of_desc(desc)
-    if "new_str" in case:
+    if "same_text" in case:
+        # the new value has exactly the text of a range of f, but other formatting ("repainting")
+        k, m, natts = case["same_text"]
+        base_text = "".join(t for t, _ in desc)
+        k = k % (len(base_text) + 1)
+        txt = base_text[k : k + m]
+        if natts is None:
+            new, newc = txt, cells_of_str(txt)
+        else:
+            cut = len(txt) // 2
+            nd = [[txt[:cut], natts[0]], [txt[cut:], natts[1]]]
+            new, newc = build_any(nd, "chunks"), cells_of_desc(nd)
+        res.label("new_has_the_text_it_replaces")
+    elif "new_str" in case:
         new, newc = case["new_str"], cells_of_str(case["new_str"])
         res.label("new_is_str")
     else:
@@ -67,13 +80,13 @@ def run_case(case):
             res.label("empty_new_with_range")
         got, err = call(lambda: f.splice(new, s) if e is None else f.splice(new, s, e))
         if err is not None:
-            res.viol("splice_raised", start=s, end=e, error=exc_str(err), desc=desc, new=case.get("new_str", case.get("new_desc")))
+            res.viol("splice_raised", start=s, end=e, error=exc_str(err), desc=desc, new=case.get("new_str", case.get("new_desc", case.get("same_text"))))
             continue
         exp = base[:s] + newc + base[ee:]
         gc, err = call(cells, got)
         if err is not None or gc != exp:
             res.viol(
-                "splice_wrong", start=s, end=e, desc=desc, new=case.get("new_str", case.get("new_desc")),
+                "splice_wrong", start=s, end=e, desc=desc, new=case.get("new_str", case.get("new_desc", case.get("same_text"))),
                 got=show(gc) if err is None else exc_str(err), expected=show(exp),
             )
         elif len(got) != len(exp):
@@ -83,7 +96,7 @@ def run_case(case):
     if err is not None:
         res.viol("append_raised", error=exc_str(err), desc=desc)
     elif cells(got) != base + newc:
-        res.viol("append_wrong", desc=desc, new=case.get("new_str", case.get("new_desc")), got=show(cells(got)), expected=show(base + newc))
+        res.viol("append_wrong", desc=desc, new=case.get("new_str", case.get("new_desc", case.get("same_text"))), got=show(cells(got)), expected=show(base + newc))
     if cells(f) != base or str(f) != str_before:
         res.viol("operand_changed", desc=desc)
     res.evals = evals
@@ -92,7 +105,10 @@ def run_case(case):
 
 def strategy():
     d = gen.desc_sized(alphabet="abcde ", max_runs=5, max_len=3, big_runs=24, big_len=60)
+    same = st.fixed_dictionaries({"desc": d, "same_text": st.tuples(st.integers(0, 12), st.integers(1, 4),
+                                  st.one_of(st.none(), st.tuples(gen.atts(), gen.atts()).map(list))).map(list), "build": gen.BUILDS, "obs": gen.OBS})
     return st.one_of(
+        same,
         st.fixed_dictionaries({"desc": d, "new_str": st.one_of(gen.text("XY", 0, 2), gen.plain_str(3)), "build": gen.BUILDS, "obs": gen.OBS}),
         st.fixed_dictionaries({"desc": d, "new_desc": gen.desc_sized(alphabet="XY", max_runs=3, max_len=2, big_runs=12, big_len=40),
                                "build": gen.BUILDS, "obs": gen.OBS, "new_build": gen.BUILDS, "new_obs": gen.OBS}),
